@@ -19,5 +19,7 @@ def run(ck):
     res = funcs.kernel_typing(ck, "C15.R2")
     funcs.single_quantization(ck, "C15.R2", res, only=("sum", "cumsum", "prod", "cumprod", "dot", "trace", "fxp_max", "fxp_min", "sort", "clip", "transpose", "diagonal"))
     funcs.reduction_room(ck, "C15.R3")
+    from . import routes
+    routes.dispatch_results_unconstrained(ck, "C15.R4")
     funcs.sizing_record(ck, "C07.R2")
     funcs.results_through_funnel(ck, "C07.R4")
